@@ -423,3 +423,64 @@ Proof.
     apply existsb_exists in E. destruct E as [s [Hs Hb]]. apply filter_In in Hs. destruct Hs as [Hs Ha].
     exfalso. apply (H s Hs). split; apply smem_In; auto.
 Qed.
+
+(* ================================================================== witnesses *)
+(* boundary of the tetrahedron 0123 built through the transcribed operations *)
+Definition complete4 : cplx :=
+  fold_left (fun c e => add_edge_without_blockers c (fst e) (snd e)) (pairs_of [0; 1; 2; 3])
+            (add_vertex (add_vertex (add_vertex (add_vertex empty_cplx)))).
+Definition hollow_tetrahedron : cplx := add_blocker complete4 [0; 1; 2; 3].
+Definition hollow_triangle : cplx :=
+  add_edge (add_edge (add_edge (add_vertex (add_vertex (add_vertex empty_cplx))) 0 1) 0 2) 1 2.
+
+(* the property "a star removal deletes precisely the simplices containing the given one" for remove_star(vertex) *)
+Definition remove_star_vertex_exact (thr : Z) : Prop :=
+  forall c v t, contains (remove_star_vertex thr c v) t = contains c t && negb (smem v t).
+Definition remove_star_edge_exact (thr : Z) : Prop :=
+  forall c a b t, a <> b -> contains (remove_star_edge thr c a b) t = contains c t && negb (ssub [Z.min a b; Z.max a b] t).
+
+Lemma remove_star_vertex_witness :
+  contains hollow_tetrahedron [1; 2; 3] = true /\ smem 0 [1; 2; 3] = false /\
+  contains (remove_star_vertex 3 hollow_tetrahedron 0) [1; 2; 3] = false /\
+  blk (remove_star_vertex 3 hollow_tetrahedron 0) = [[1; 2; 3]].
+Proof. vm_compute. auto. Qed.
+
+Theorem remove_star_vertex_refuted : ~ remove_star_vertex_exact 3.
+Proof.
+  intros H. specialize (H hollow_tetrahedron 0 [1; 2; 3]).
+  destruct remove_star_vertex_witness as [H1 [H2 [H3 _]]]. rewrite H1, H2, H3 in H. discriminate.
+Qed.
+
+Definition complete5 : cplx :=
+  fold_left (fun c e => add_edge_without_blockers c (fst e) (snd e)) (pairs_of [0; 1; 2; 3; 4])
+            (add_vertex (add_vertex (add_vertex (add_vertex (add_vertex empty_cplx))))).
+Definition hollow_4simplex : cplx := add_blocker complete5 [0; 1; 2; 3; 4].
+Theorem remove_star_edge_refuted : ~ remove_star_edge_exact 3.
+Proof.
+  intros H. specialize (H hollow_4simplex 0 1 [2; 3; 4]).
+  assert (H1 : contains hollow_4simplex [2; 3; 4] = true) by (vm_compute; auto).
+  assert (H3 : contains (remove_star_edge 3 hollow_4simplex 0 1) [2; 3; 4] = false) by (vm_compute; auto).
+  rewrite H1, H3 in H. simpl in H. assert (0 <> 1) by lia. specialize (H H0). discriminate.
+Qed.
+
+(* the unrepaired threshold (>= 2) registered an edge as a blocker: hollow triangle, remove_star(0) *)
+Theorem remove_star_unrepaired_threshold_refuted : ~ remove_star_vertex_exact 2 /\
+  contains (remove_star_vertex 2 hollow_triangle 0) [1; 2] = false /\
+  contains (remove_star_vertex 3 hollow_triangle 0) [1; 2] = true.
+Proof.
+  split; [|split; vm_compute; auto].
+  intros H. specialize (H hollow_triangle 0 [1; 2]).
+  assert (H1 : contains hollow_triangle [1; 2] = true) by (vm_compute; auto).
+  assert (H3 : contains (remove_star_vertex 2 hollow_triangle 0) [1; 2] = false) by (vm_compute; auto).
+  rewrite H1, H3 in H. discriminate.
+Qed.
+
+(* non-vacuity of the hypotheses used above *)
+Example hollow_tetrahedron_contains :
+  contains hollow_tetrahedron [0; 1; 2] = true /\ contains hollow_tetrahedron [0; 1; 2; 3] = false /\
+  link_condition hollow_tetrahedron 0 1 = false /\ link_condition complete4 0 1 = true.
+Proof. vm_compute. auto. Qed.
+Example remove_star_simplex_instance :
+  contains (remove_star_simplex 3 complete4 [0; 1; 2]) [0; 1; 2; 3] = false /\
+  contains (remove_star_simplex 3 complete4 [0; 1; 2]) [0; 1; 3] = true.
+Proof. vm_compute. auto. Qed.
